@@ -712,8 +712,8 @@ let run_thr_script oc (name, lines) =
    | first :: rest when split_ws first = ["interleaving"] ->
      let sched = List.map (fun l ->
          match split_ws l with
-         | [t; "{"] -> (t = "B", TBegin)
-         | [t; "}"] -> (t = "B", TEnd)
+         | [t; "{"] | [t; "topen"; _] -> (t = "B", TBegin)
+         | [t; "}"] | [t; "tclose"; _] -> (t = "B", TEnd)
          | [t; "send"; v] -> (t = "B", TSend (zz v))
          | _ -> failwith ("bad thr step " ^ l)) rest in
      (match run_schedule sched with
